@@ -4,7 +4,8 @@ L7 — `XmlContext` as a sequential state machine.
 `State` = the three mutable slots of an `XmlContext` (`cache`, `xsi_cache`,
 `sys_modules`).  `step U w s op` runs one public method against the state in
 world `w` and returns the new state and the observable result.  The code is
-followed statement by statement: the cache is keyed by class only, the index
+followed statement by statement: the cache is keyed by `(class, parent_ns)`
+(repair of C14-F1), the index
 is rebuilt when `len(sys.modules)` differs from the stamp (since 556b985 into a
 local dict that is then assigned to `xsi_cache` — sequentially the same state
 transition as the former clear-and-refill; the difference only shows in the
@@ -18,8 +19,8 @@ namespace Xs.Ctx
 open Py
 
 structure State where
-  /-- `self.cache : dict[type, XmlMeta]`, insertion ordered -/
-  cache : List (ClassId × Meta)
+  /-- `self.cache : dict[tuple[type, str | None], XmlMeta]`, insertion ordered -/
+  cache : List ((ClassId × Option Str) × Meta)
   /-- `self.xsi_cache : defaultdict(list)` -/
   xsi : List (Str × List ClassId)
   /-- `self.sys_modules` -/
@@ -47,11 +48,11 @@ def dictSet {κ ν} [DecidableEq κ] (d : List (κ × ν)) (k : κ) (v : ν) : L
 
 /-- `XmlContext.build(clazz, parent_ns)` -/
 def doBuild (U : Universe) (s : State) (c : ClassId) (pns : Option Str) : State × Except Err Meta :=
-  match s.cache.lookup c with
+  match s.cache.lookup (c, pns) with
   | some m => (s, .ok m)
   | none =>
     match pureBuild U c pns with
-    | .ok m => ({ s with cache := dictSet s.cache c m }, .ok m)
+    | .ok m => ({ s with cache := dictSet s.cache (c, pns) m }, .ok m)
     | .error e => (s, .error e)
 
 /-- `XmlContext.build_xsi_cache()` -/
@@ -88,10 +89,6 @@ def doFetch (U : Universe) (w : World) (s : State) (c : ClassId) (pns xsi : Opti
       | (s2, none) => (s2, .ok m)
     else (s1, .ok m)
 
-/-- `list.remove(x)`; `none` = `ValueError` -/
-def listRemove (l : List ClassId) (c : ClassId) : Option (List ClassId) :=
-  if l.contains c then some (l.erase c) else none
-
 /-- `XmlContext.local_names_match(names, clazz)` -/
 def doLocalNamesMatch (U : Universe) (s : State) (names : List Str) (c : ClassId) : State × Except Err Bool :=
   match doBuild U s c none with
@@ -104,9 +101,8 @@ def doLocalNamesMatch (U : Universe) (s : State) (names : List Str) (c : ClassId
       match s1.xsi.lookup k with
       | none => (s1, .ok false)
       | some l =>
-        match listRemove l c with
-        | none => (s1, .error .value)
-        | some l' => ({ s1 with xsi := dictSet s1.xsi k l' }, .ok false)
+        -- `with suppress(ValueError): self.xsi_cache[target_qname].remove(clazz)`
+        ({ s1 with xsi := dictSet s1.xsi k (l.erase c) }, .ok false)
 
 abbrev Choice := ClassId × (Nat × Str)
 
@@ -121,10 +117,11 @@ def scanTypes (U : Universe) (names : List Str) :
     | (s1, .error e) => (s1, .error e)
     | (s1, .ok false) => scanTypes U names rest s1 acc
     | (s1, .ok true) =>
-      -- get_field_diff(clazz): meta = self.cache[clazz]
-      match s1.cache.lookup c, U.get? c with
-      | some m, some d => scanTypes U names rest s1 (acc ++ [(c, (fieldDiff names m, d.name))])
-      | _, _ => (s1, .error .index)
+      -- get_field_diff(clazz): meta = self.build(clazz)
+      match doBuild U s1 c none, U.get? c with
+      | (s2, .ok m), some d => scanTypes U names rest s2 (acc ++ [(c, (fieldDiff names m, d.name))])
+      | (s2, .error e), _ => (s2, .error e)
+      | (s2, _), none => (s2, .error .index)
 
 /-- the outer `for types in self.xsi_cache.values()`; the snapshot of a list is
 taken when the loop reaches it -/
